@@ -1289,6 +1289,7 @@ fn conc_mode(inputs: &[Value], seed: u64, si: usize, sn: usize, out: &mut TraceO
                 drop(kv);
             }
             "stress" => {
+                let _ = bcverif::take_panic_messages();
                 let threads = inp["threads"].as_u64().unwrap_or(4) as usize;
                 let nops = inp["ops"].as_u64().unwrap_or(10) as usize;
                 let nkeys = inp["keys"].as_u64().unwrap_or(2) as usize;
@@ -1453,7 +1454,11 @@ fn conc_mode(inputs: &[Value], seed: u64, si: usize, sn: usize, out: &mut TraceO
                 };
                 let with_hints = reopen(false);
                 let without_hints = reopen(true);
+                // a counter that underflows panics in this (overflow-checked) build: the operation's outcome is C04's
+                // business, the underflow itself is C19's ("the counters never underflow")
+                let overflow_panics: Vec<String> = bcverif::take_panic_messages().into_iter().filter(|m| m.contains("overflow") && m.contains("storage")).collect();
                 out.emit(&json!({"ev": "conc", "kind": "stress-final", "final": fin, "stats_bad": stats_bad.iter().take(3).collect::<Vec<_>>(),
+                                 "counter_overflow_panics": overflow_panics.iter().take(2).collect::<Vec<_>>(),
                                  "index_bad": scan_bad, "reads_before_close": before, "after_restart": with_hints, "after_restart_without_hints": without_hints}));
             }
             k => panic!("kind {k}"),
